@@ -96,6 +96,10 @@ def units(tier):
     from props import c01_model as MM
     wrap("C01.molalities.mass_action", MM.unit_molalities)
     wrap("C01.sum_species.totals_charge_alkalinity", MM.unit_sum_species)
+    from props import c01_resid as MR
+    wrap("C01.residuals.row_equations", MR.unit_residual_rows)
+    from props import c01_readouts as RO
+    wrap("C01.species_readouts.LA==LM+LG", RO.unit_species_readouts)
     wrap("C01.saturation_index.SI==IAP-logK", lambda twin=False: M.unit_si_readout("saturation_index", twin))
     wrap("C01.saturation_ratio.SI==IAP-logK", lambda twin=False: M.unit_si_readout("saturation_ratio", twin))
     return us
